@@ -12,6 +12,7 @@ import (
 	"seehuhn.de/go/pdf"
 	gen "seehuhn.de/go/pdf/internal/verifgen"
 	kit "seehuhn.de/go/pdf/internal/verifkit"
+	"seehuhn.de/go/xmp"
 )
 
 // C19: I/O failures surface as I/O failures.
@@ -76,6 +77,13 @@ func c19Meta(m *pdf.MetaInfo) string {
 		fmt.Fprintf(&b, " info={%q %q %v}", m.Info.Title, m.Info.Author, m.Info.Custom)
 	} else {
 		b.WriteString(" info=nil")
+	}
+	if m.Catalog != nil && m.Catalog.Metadata != nil && m.Catalog.Metadata.Data != nil {
+		var dc xmp.DublinCore
+		m.Catalog.Metadata.Data.Get(&dc)
+		fmt.Fprintf(&b, " metadata=%v", dc.Title)
+	} else {
+		b.WriteString(" metadata=none")
 	}
 	fmt.Fprintf(&b, " trailer=%s", gen.Canon(m.Trailer))
 	return b.String()
@@ -230,6 +238,8 @@ func TestVerifC19(t *testing.T) {
 	r.Phase("read-faults", r.N(96, 1200), func(c *kit.Case) {
 		cfg := gen.RandomConfig(c.Rng, c.Index%144)
 		cfg.MaxOps = 2 + c.Rng.Intn(6)
+		cfg.WithMetadata = c.Rng.Bool()
+		cfg.PlaintextMetadata = c.Rng.Bool()
 		d, err := gen.BuildDoc(c.Rng, cfg)
 		if err != nil {
 			c.Violationf("writer-refused-valid-call", "%v", err)
